@@ -208,7 +208,8 @@ Theorem C12_source_idle_threshold : (Consts.c_c12_closeidles_idle_s = 2)%N.
 Proof. exact ShutdownSrc.src_idle_threshold_s. Qed.
 Theorem C12_source_step_shape :
   (Consts.c_c12_closemsg_before_sweep = 1 /\ Consts.c_c12_accept_error_continues = 1 /\ Consts.c_c12_count_before_dispatch = 1 /\
-   Consts.c_c12_allclosed_only_cleared = 1 /\ Consts.c_c12_closemsg_range_continues = 1 /\ Consts.c_c12_decrement_deferred_in_handler = 1)%N.
+   Consts.c_c12_allclosed_only_cleared = 1 /\ Consts.c_c12_closemsg_range_continues = 1 /\ Consts.c_c12_decrement_deferred_in_handler = 1 /\
+   Consts.c_c12_drain_wait_only_exit = 1)%N.
 Proof. exact ShutdownSrc.src_step_shape. Qed.
 
 (* 5. The tie: a recorded shutdown accepted by the trace validator is explained by a run of the repaired model
